@@ -16,6 +16,7 @@ type pairCase struct {
 	A    partyJ   `json:"a"`
 	B    partyJ   `json:"b"`
 	Pool int      `json:"pool"`
+	HF   flagsJ   `json:"hf"` // handshake.Options.NetworkFlags both handshakes are created with: must not leak into what a party enforces
 	Tags []string `json:"tags,omitempty"`
 }
 
@@ -45,6 +46,7 @@ func genPairCase(r *rand.Rand) pairCase {
 	if r.Intn(2) == 0 {
 		c.B.Cookie = c.A.Cookie
 	}
+	c.HF = genFlags(r)
 	return c
 }
 
@@ -59,8 +61,8 @@ func execPair(c pairCase) (frames []frame, ra, rb hsOutcome) {
 	log := &wireLog{}
 	ta := &tapConn{ca, true, log}
 	tb := &tapConn{cb, false, log}
-	ha := handshake.Create(handshake.Options{PoolSize: c.Pool})
-	hb := handshake.Create(handshake.Options{PoolSize: c.Pool})
+	ha := handshake.Create(handshake.Options{PoolSize: c.Pool, NetworkFlags: c.HF.gen()})
+	hb := handshake.Create(handshake.Options{PoolSize: c.Pool, NetworkFlags: c.HF.gen()})
 	cha := make(chan hsOutcome, 1)
 	chb := make(chan hsOutcome, 1)
 	go func() {
